@@ -223,12 +223,12 @@ def generate(seed, tier, batch):
         how = {"mode": "compile", "compiler": "gaussian_unitary", "optimize": False, "bind_first": True}
     script = {"backend": backend, "n": n, "segs": segs, "bind": bind, "tape": tape, "how": how, "cutoff": 6, "foreign": [], "misuse": None}
     if batch == "misuse":
-        script["misuse"] = {"kind": r.choice(["use_before_measure", "use_before_measure_rerun", "unbound", "unknown_name", "unbound_one_of_many", "foreign_param_object"]),
+        script["misuse"] = {"kind": r.choice(["use_before_measure", "use_before_measure_rerun", "unbound", "unknown_name", "unbound_one_of_many", "foreign_param_object", "rebind", "rebind"]),
                             "mode": r.randrange(n), "pick": r.random()}
     if batch == "foreign":
         for _ in range(r.randint(1, 3)):
             script["foreign"].append({"at": r.choice(["before_build", "after_build", "after_compile", "between_segments"]),
-                                      "kind": r.choice(["build", "build_run", "blackbird"]),
+                                      "kind": r.choice(["build", "build_run", "blackbird", "clone_run", "clone_run"]),
                                       "same_free_names": False, "value": rnd(r, -2, 2), "n": n, "seed": r.randrange(1 << 30)})
     return script
 
@@ -532,6 +532,37 @@ def foreign_activity(script, f, w, simenv):
     w.fault("foreign_activity:" + f["kind"])
     r = random.Random(f["seed"])
     n = f["n"]
+    if f["kind"] == "clone_run":
+        # another session runs a program with *identical text* (its own objects, its own outcomes and bindings) earlier in the process:
+        # whatever the library remembers per expression text must not leak into the observed program
+        if script["backend"] == "fock":
+            return
+        saved = simenv.rng.handler
+        tape_obj = saved if isinstance(saved, Tape) else None
+        clone = dict(script, tape={k_: round(-0.7 * v_ + 0.11, 3) for k_, v_ in script["tape"].items()}, bind={k_: round(-v_ + 0.2, 3) for k_, v_ in script["bind"].items()})
+        ctape = Tape(clone, w, SeededOutcomes(2, w))
+
+        def hook(phase, be, name, a, k, out):
+            ctape.on_call(phase, be, name, a, k, out)
+
+        if tape_obj is not None:
+            tape_obj.foreign = True
+        old_cb = simenv.on_call
+        simenv.on_call = hook
+        simenv.rng.handler = ctape
+        try:
+            progs = build_chain(clone, numeric=False)
+            eng = simenv.engine(script["backend"], {})
+            for p_ in progs:
+                eng.run(p_, args=clone["bind"] or None)
+        except Exception as ex:  # noqa
+            w.log("foreign_error", exc=type(ex).__name__, msg=str(ex)[:200])
+        finally:
+            simenv.rng.handler = saved
+            simenv.on_call = old_cb
+            if tape_obj is not None:
+                tape_obj.foreign = False
+        return
     names = (sorted(script["bind"]) or ["a", "b"]) if f.get("same_free_names") else ["zz%d" % i for i in range(2)]
     if f["kind"] == "blackbird":
         txt = "name foreign\nversion 1.0\n\nMeasureX | 0\nDgate({q0}*0.3, 0.0) | %d\n" % (1 if n > 1 else 0)
@@ -680,6 +711,39 @@ def exec_misuse(script, w, simenv, tape, opts, feats, foreign=lambda at: None):
             w.violation("substitution", "bound-run-after-rejected-unbound-run vs numeric twin", {"diff": d, "daggered_symbolic_gate": sym_dag}, feats)
         else:
             w.probes["rerun_after_parameter_error_matches_twin"] += 1
+        return
+    if kind == "rebind":
+        # successive runs on ONE engine (no reset) with different bindings: every run uses the values given to it, and an unknown name
+        # is rejected on a later run exactly as on the first
+        rr = random.Random(int(mis["pick"] * 1e9))
+        vals = [round(rr.uniform(-0.8, 0.8), 3) for _ in range(rr.randint(2, 3))]
+
+        def build(a):
+            p_ = sf.Program(n)
+            with p_.context as q:
+                a_ = p_.params("a") if a is None else a
+                ops.Rgate(a_ * 2 + 0.1) | q[0]
+                ops.Dgate((sf.math.tanh(a_) if a is None else math.tanh(a_)) ** 2 * 0.4, 0.3) | q[n - 1]
+            return p_
+
+        p = build(None)
+        eng_s = simenv.engine(backend, opts)
+        eng_t = simenv.engine(backend, opts)
+        rs = rt = None
+        try:
+            for v in vals:
+                w.step("run_rebind", a=v)
+                rs = eng_s.run(p, args={"a": v})
+                rt = eng_t.run(build(v))
+        except Exception as ex:  # noqa
+            w.violation("substitution", "rebinding-run-raises", {"exc": type(ex).__name__, "msg": str(ex)[:300], "values": vals}, feats)
+            return
+        d = obs_diff(state_obs(rt.state), state_obs(rs.state), 1e-7 if backend != "fock" else 1e-6)
+        if d:
+            w.violation("substitution", "successive-runs-with-different-bindings vs numeric twin", {"diff": d, "values": vals}, feats)
+            return
+        expect_parameter_error(lambda: eng_s.run(p, args={"a": 0.1, "nope": 0.2}), "unknown-parameter-name-on-later-run")
+        w.probes["rebinding_checked"] += 1
         return
     if kind == "foreign_param_object":
         # binding by parameter *object*: an object that belongs to another program is an unknown parameter of this one
